@@ -13,6 +13,15 @@ CHECKS = {
  "C09": dict(technique="TLC lemmas over Params.tla + TLC trace validation of the complete aln_param_init table, kalign_run's parameters in force and traced CLI runs",
              text="Params.tla states the documented table and the override rule; TLC checks its lemmas (explicit default = default, each penalty alone, reject iff mismatch). ParamsTrace validates every entry of the finite table biotype x type x override values returned by the real aln_param_init (including the full matrix), the parameters the kernels actually read in kalign_run, the type constant and penalties that each documented --type word / --gpo/--gpe/--tgpe reaches kalign_run with (CLI traced through KALIGN_VERIF_TRACE), and explicit-default = default outputs.",
              note="table enumeration is complete for the listed override values (thorough); matrices transcribed once from the source as the documented reference; float penalties compared in 0.1 units", ref="DESIGN 5.C09"),
+ "C14": dict(technique="TLC lemmas over Alphabet.tla, TLC validation of the real code tables, TLC-validated relational traces (gap pattern equality) over case and T/U masks",
+             text="Alphabet.tla states the residue classes; AlphabetTrace checks the five real 128-entry tables for case and T/U blindness (complete); RelateTrace checks, for all 2^k case masks and T/U masks of tiny inputs and seeded masks of generated inputs of every type, that the gap pattern equals the base run's and output letters equal the variant's input letters.",
+             note="tables complete; end-to-end masks exhaustive only for tiny inputs, sampled otherwise", ref="DESIGN 5.C14"),
+ "C02": dict(technique="TLC model checking of an OpenMP task model (all schedules, small bounds) + TLC trace validation of fork/join order and data-flow digests on real runs + TLC-validated output identity across configurations",
+             text="TaskTree.tla models spawn/taskwait/tied-task scheduling; TLC explores every schedule of kalign's three fork/join islands for 2-3 threads (twins without taskwait must fail). TaskTreeTrace checks on every recorded execution that no merge begins before both children ended, forward and backward ended before the meetup, restarts ended before the reduction, and that each reader saw exactly the digest its producers wrote. RelateTrace requires identical output across thread counts 1..64, nesting levels, wait policies, CPU sets, perturbed schedules, and the build without OpenMP.",
+             note="real schedules are sampled; only the model is explored exhaustively; hook order relies on one mutex-protected sequence counter", ref="DESIGN 5.C02"),
+ "C03": dict(technique="TLC-validated relational traces: column-membership equality over permutations of the input records",
+             text="For each sequence set the harness runs several record orders (all n! for tiny inputs with ties, structured and random permutations for generated inputs on both sides of the 100-sequence switch); RelateTrace requires the same set of columns as sets of (name, residue index).",
+             note="permutations sampled except for tiny inputs; names distinct by construction", ref="DESIGN 5.C03"),
 }
 NOT_YET = {}
 ALL = ["C%02d" % i for i in range(1, 18)]
